@@ -121,3 +121,63 @@ def run(chk, suite, n_threads, rng):
             if what:
                 chk.violation(suite, '%s:%d:%s:%d' % (suite, pv, thr, n_threads), {'case': case, 'observed': what},
                               'encrypted session at protocol %d, threshold %s, %d writer(s), packet bodies %s: %s' % (pv, thr, n_threads, sizes, what))
+
+
+def relogin_after_failure(chk, suite):
+    """An encrypted session ends with an error (the server drops the connection); an exception handler connects again at once and
+    the server asks for encryption again: the second session is encrypted like the first - the keep-alive the server sends under
+    the cipher is understood, and its answer arrives as ciphertext of the right frame."""
+    from minecraft.networking.connection import Connection
+    for pv in (47, 340, 757):
+        ids = proto.Ids(pv)
+        for via in ('handler', 'final-handler', 'user-after-error'):
+            f1, cut1 = c10.build_server(ids, [('enc', '-', b'tok1'), ('success',)])
+            f2, cut2 = c10.build_server(ids, [('enc', '-', b'tok2'), ('success',), ('ka', 5)])
+            wires = []
+            for fr, cut in ((f1, cut1), (f2, cut2)):
+                plain = b''.join(fr)
+                wires.append(plain[:cut] + bytes(run_model([('mc_encrypt', [SECRET, [plain[cut:]]])])[0][0]))
+            net = sim.Net([sim.Server([wires[0]], end='eof'), sim.Server([wires[1]], end='idle')], urandom=SECRET).install()
+            excs, again = [], []
+
+            def reconnect(e, info):
+                excs.append(e)
+                if not again and via != 'user-after-error':
+                    again.append(1)
+                    conn.connect()
+            try:
+                conn = Connection('localhost', 25565, username='user', allowed_versions={pv}, handle_exception=reconnect if via == 'final-handler' else (lambda e, i: None) if via == 'handler' else (lambda e, i: excs.append(e)))
+                if via == 'handler':
+                    conn.register_exception_handler(reconnect)
+                conn.connect()
+                net.run_threads(conn)
+                if via == 'user-after-error':
+                    conn.connect()
+                    net.run_threads(conn)
+            except Exception as e:
+                excs.append(e)
+            finally:
+                net.uninstall()
+            chk.count(suite, ['relogin-after-failure', pv, via], True)
+            what = None
+            data = b''.join(net.servers[1].sends)
+            try:
+                i = 0
+                for _ in range(3):
+                    ln, j = proto.rd_varint(data, i)
+                    i = j + ln
+                ct = data[i:]
+                pt = bytes(run_model([('mc_decrypt', [SECRET, [ct]])])[0][0]) if ct else b''
+                frames = proto.parse_frames(pt) if pt else []
+                names = [exn_name(e) for e in excs]
+                want = ids.b_keep_alive(5) if ids.keep_alive_long else proto.varint(5)
+                if names != ['EOFError']:
+                    what = 'errors reported %s (expected the EOFError of the first session only)' % names
+                elif [(pid, body) for pid, body in frames] != [(ids.sb_keep_alive, want)]:
+                    what = 'after the second key exchange the client sent %s; expected the answer to keep-alive 5 as ciphertext' % (
+                        [(hex(pid), body.hex()[:20]) for pid, body in frames] or 'nothing that opens under the session key (%d bytes)' % len(ct))
+            except Exception as e:
+                what = 'what the second server received does not open into frames under the session key: %s' % exn_name(e)
+            if what:
+                chk.violation(suite, '%s:relogin:%d:%s' % (suite, pv, via), {'case': {'proto': pv, 'reconnect': via}, 'observed': what},
+                              'protocol %d, encrypted session dropped by the server, reconnect by %s, encryption requested again: %s' % (pv, via, what))
